@@ -9,9 +9,11 @@ CLAIM = ('Decides statically, for every (start, count) including 0..3, non-multi
          'the clause "writes exactly the requested items" that no test exercises (the suite never calls randomx_init_dataset). Also: the item constants agree in spec, C++ and assembly; '
          'the interpreted and compiled initialiser are selected consistently; initDatasetItem has the step order of spec 7.3. Equality of the computed 64-byte items between compiled and '
          'interpreted code is numeric and not claimed.'
-         ' The range property is additionally decided independently of the shape of the splitting code: the address-arithmetic slice of randomx_init_dataset and of the interpreted initialiser is evaluated for 900+ (start, count, initialiser) cases covering every residue of count mod 4 and ranges at both ends of the dataset (DS-RANGE-EVAL).')
+         ' The range property is additionally decided independently of the shape of the splitting code: the address-arithmetic slice of randomx_init_dataset and of the interpreted initialiser is evaluated for 900+ (start, count, initialiser) cases covering every residue of count mod 4 and ranges at both ends of the dataset (DS-RANGE-EVAL).'
+         ' The compiled dataset initialiser computes the same SuperscalarHash instructions as the interpreter: every kind of instruction the x86 emitter produces is validated against specification Table 6.1.1 by symbolic execution of the emitted bytes (X86-SS-HSEM).')
 LEVEL_NOTE = 'Trusted: documented precondition start + count <= item count; the compiled initialiser (hand-written asm + generated SuperscalarHash) writes [S, E) when E - S is a positive multiple of 4 (its loop shape is checked in RACE-ASM, its arithmetic is not).'
-EXPLANATION = 'RACE-RANGE (8 regions x calls), DS-INITSEL, SPEC-DSCONST (16), DS-ITEM. DS-RANGE-EVAL.'
+EXPLANATION = ('RACE-RANGE (8 regions x calls), DS-INITSEL, SPEC-DSCONST (16), DS-ITEM. DS-RANGE-EVAL.'
+         ' X86-SS-HSEM.')
 
 
 def run(ctx, R):
